@@ -5,6 +5,14 @@ VERIF = os.path.dirname(os.path.dirname(os.path.abspath(__file__)))
 props = [json.loads(l) for l in open(os.path.join(VERIF, "properties.jsonl"))]
 
 CLAIMED = {
+    "C16": dict(
+        text="Blocks.tla specifies a valid block ordering as a state machine (SolveBlock enabled only for a square, structurally non-singular "
+             "block whose equations involve own or earlier quantities; Finish when all is solved); TLC checks the partition/sequential-validity "
+             "invariants and deadlock-freedom on all matrices with a perfect matching up to n = 3 (4 thorough). The block sequence returned by "
+             "blaze() for every matrix n <= 4 and sampled n <= 8, and the outcome of Sequential.sequentialize() for every dependency digraph "
+             "n <= 3 and sampled n <= 6, are recorded as traces and validated by TLC against TraceBlocks.tla.",
+        note="Trusted: TLC; structural non-singularity is taken as existence of a perfect matching. Quick tier sends a seeded sixth of the 4x4 matrices to TLC.",
+        design="5/C16", technique="TLA+ spec (Blocks) model-checked by TLC; traces recorded from blaze()/sequentialize() validated by TLC against the trace spec"),
     "C12": dict(
         text="Convert.tla defines aggregation/disaggregation through calendar membership (Calendar.tla) with the documented methods in exact "
              "arithmetic; TLC checks that groups tile the source and that aggregate(disaggregate(x)) = x for the matching method pairs on every "
